@@ -1,4 +1,4 @@
 (** Extraction of the session engine. Directives: ExtrOcamlBasic only. *)
 From Coq Require Import ExtrOcamlBasic.
-From Qv Require Import Common.Bytes Model.NetRead Model.Session Model.Trace Spec.SessionSpec Model.SpfBase Model.SpfEnv Model.SpfMacro Model.Spf.
-Extraction "m.ml" run_session trace_run queue_run a_init trace_header trace_header_with check_host_c spfreceived octets_to_N data_verdict_ok maxbytes handoff_msg_ok submission_port.
+From Qv Require Import Common.Bytes Model.NetRead Model.Session Model.Trace Spec.SessionSpec Spec.TraceSpec Model.SpfBase Model.SpfEnv Model.SpfMacro Model.Spf.
+Extraction "m.ml" run_session trace_run queue_run a_init trace_header trace_header_with check_host_c spfreceived octets_to_N data_verdict_ok maxbytes handoff_msg_ok handoff_hdr_check submission_port.
